@@ -3,7 +3,7 @@
 `run(what)` is called by ./check when a property's CFG has an "extract" key.  Supported: "fontinfo_conv"
 (the legacy font-info conversion tables used by C14).  The extractor reads syntactically rigid places with
 regular expressions.  If an anchor is not found (a refactor moved or reshaped the code) the pinned, committed
-copy of the generated file is kept and the result says `extraction: pinned` - never an alarm.
+copy (tools/pinned/) of the generated file is restored and the result says `extraction: pinned` - never an alarm.
 """
 import os, re
 
@@ -213,9 +213,16 @@ def run(what):
     if what != "fontinfo_conv":
         return {"extraction": "pinned", "reason": "unknown table set " + str(what)}
     path = os.path.join(GEN, "FontInfoTables.lean")
+    pinned = os.path.join(ROOT, "tools", "pinned", "FontInfoTables.lean")
     try:
         text, stats = fontinfo_conv()
     except (Anchor, OSError, KeyError, AttributeError) as e:
+        # fall back to the committed, pinned table (never to whatever an earlier run left behind)
+        if os.path.exists(pinned):
+            ptext = open(pinned).read()
+            if not os.path.exists(path) or open(path).read() != ptext:
+                with open(path, "w") as f:
+                    f.write(ptext)
         return {"extraction": "pinned", "reason": "anchor not found: %s" % e, "file": os.path.relpath(path, ROOT)}
     old = open(path).read() if os.path.exists(path) else None
     changed = old != text
@@ -223,7 +230,8 @@ def run(what):
         os.makedirs(GEN, exist_ok=True)
         with open(path, "w") as f:
             f.write(text)
-    stats.update({"extraction": "fresh", "source": REPO, "differs_from_pinned_copy": bool(changed and old is not None),
+    ptext = open(pinned).read() if os.path.exists(pinned) else None
+    stats.update({"extraction": "fresh", "source": REPO, "differs_from_pinned_copy": ptext is not None and ptext != text,
                   "file": os.path.relpath(path, ROOT)})
     return stats
 
